@@ -400,4 +400,378 @@ theorem waitRead_fuel_indep [DecidableEq α] [Inhabited α] (b : Nat) (n : Int) 
               · rw [h3]; simp [hs] at h2; omega
 
 
+/-! ## reader calls -/
+
+/-- `q'` is `q` with `bs`, its first readable bytes, taken off the front -/
+def Took (q q' : Q α) (bs : List α) : Prop :=
+  q' = { q with items := q.items.drop bs.length } ∧ bs = q.flushedBytes.take bs.length
+
+theorem Took.refl_nil (q : Q α) : Took q q [] := by simp [Took]
+
+theorem Took.flushedBytes {q q' : Q α} {bs : List α} (h : AllF q.items) (t : Took q q' bs) :
+    q.flushedBytes = bs ++ q'.flushedBytes := by
+  obtain ⟨rfl, hb⟩ := t
+  have : ({ q with items := q.items.drop bs.length } : Q α).flushedBytes = q.flushedBytes.drop bs.length := by
+    simp [Q.flushedBytes, allF_filter h, allF_filter (allF_drop h _), List.map_drop]
+  rw [this]
+  conv => rhs; arg 1; rw [hb]
+  exact (List.take_append_drop _ _).symm
+
+theorem Took.allF {q q' : Q α} {bs : List α} (h : AllF q.items) (t : Took q q' bs) : AllF q'.items := by
+  obtain ⟨rfl, _⟩ := t; exact allF_drop h _
+
+theorem Took.flags {q q' : Q α} {bs : List α} (h : QFlags q) (t : Took q q' bs) : QFlags q' := by
+  obtain ⟨rfl, _⟩ := t; exact h
+
+theorem takeRead_took {q : Q α} (h : AllF q.items) (n : Int) :
+    (takeRead q n true = (q, .exact .err) ∧ 0 < n ∧ q.len < n.toNat) ∨
+    (∃ bs, takeRead q n true = ({ q with items := q.items.drop bs.length }, .exact (.bytes bs)) ∧
+       bs = q.flushedBytes.take bs.length ∧ bs.length = n.toNat ∧ bs = q.firstBytes n.toNat) := by
+  unfold takeRead
+  by_cases hn : n ≤ 0
+  · right; refine ⟨[], ?_⟩
+    have : n.toNat = 0 := by omega
+    simp [hn, this, Q.firstBytes]
+  · by_cases hl : q.len < n.toNat
+    · left; simp [hn, hl]; omega
+    · right; refine ⟨q.firstBytes n.toNat, ?_⟩
+      have hlen : (q.firstBytes n.toNat).length = n.toNat := by
+        rw [Q.firstBytes_of_allF h, List.length_take, ← Q.len_eq_flushedBytes]; omega
+      simp only [hn, hl, if_false, if_true, hlen, true_and]
+      exact ⟨Q.firstBytes_of_allF h _, trivial⟩
+
+theorem takeRead_peek {q : Q α} (h : AllF q.items) (n : Int) :
+    (takeRead q n false = (q, .exact .err) ∧ 0 < n ∧ q.len < n.toNat) ∨
+    (∃ bs, takeRead q n false = (q, .exact (.bytes bs)) ∧
+       bs = q.flushedBytes.take bs.length ∧ bs.length = n.toNat) := by
+  unfold takeRead
+  by_cases hn : n ≤ 0
+  · right; refine ⟨[], ?_⟩
+    have : n.toNat = 0 := by omega
+    simp [hn, this]
+  · by_cases hl : q.len < n.toNat
+    · left; simp [hn, hl]; omega
+    · right; refine ⟨q.firstBytes n.toNat, ?_⟩
+      have hlen : (q.firstBytes n.toNat).length = n.toNat := by
+        rw [Q.firstBytes_of_allF h, List.length_take, ← Q.len_eq_flushedBytes]; omega
+      simp only [hn, hl, if_false, hlen]
+      exact ⟨by simp, Q.firstBytes_of_allF h _, trivial⟩
+
+theorem contract_read {q : Q α} (h : AllF q.items) (hf : QFlags q) :
+    (∀ n, Contract q (.next n) = true) ∧ (∀ n, Contract q (.peek n) = true) ∧ (∀ n, Contract q (.skip n) = true) ∧
+    (∀ n, Contract q (.readBinary n) = true) ∧ Contract q .readByte = true ∧ (∀ c, Contract q (.until c) = true) ∧
+    Contract q .release = true ∧ Contract q .len = true := by
+  simp [Contract, hf.1, Q.readOK_of_allF h]
+
+
+/-- the call handed out exactly `bs`: the next bytes of the source stream after what had been delivered before -/
+def Delivers (r r' : ZCReader α) (bs : List α) : Prop :=
+  bs = seg r.src.stream r.delivered.length bs.length ∧ r'.delivered = r.delivered ++ bs
+
+theorem seg_mid {f : Nat → α} {l₁ l₂ l₃ : List α} {N : Nat} (h : l₁ ++ l₂ ++ l₃ = seg f 0 N) :
+    l₂ = seg f l₁.length l₂.length := by
+  have hN : N = l₁.length + (l₂.length + l₃.length) := by
+    have := congrArg List.length h
+    simp [seg_length] at this; omega
+  rw [hN, seg_add, seg_add, List.append_assoc] at h
+  have h1 := List.append_inj h (by simp [seg_length])
+  have h2 := List.append_inj h1.2 (by simp [seg_length])
+  simpa using h2.1
+
+/-- a buffered prefix of the readable bytes is the next part of the source stream -/
+theorem RGood.next_bytes {r : ZCReader α} (hr : RGood r) {bs : List α} (hb : bs = r.q.flushedBytes.take bs.length) :
+    bs = seg r.src.stream r.delivered.length bs.length := by
+  have h := hr.stream
+  rw [← List.take_append_drop bs.length r.q.flushedBytes, ← hb, Src.pulled_eq, ← List.append_assoc] at h
+  exact seg_mid h
+
+/-- outcome of a consuming read on the queue: an error and no change, or `bs` (satisfying `L`) taken off the front -/
+def ReadSpec (q : Q α) (out : Q α × Expect α) (L : List α → Prop) : Prop :=
+  out = (q, .exact .err) ∨
+  ∃ bs, out = ({ q with items := q.items.drop bs.length }, .exact (.bytes bs)) ∧ bs = q.flushedBytes.take bs.length ∧ L bs
+
+theorem readSpec_next [DecidableEq α] {q : Q α} (h : AllF q.items) (n : Int) :
+    ReadSpec q (specStep q (.next n)) (fun bs => bs.length = n.toNat) := by
+  rcases takeRead_took h n with ⟨h1, _⟩ | ⟨bs, h1, h2, h3, _⟩
+  · exact Or.inl h1
+  · exact Or.inr ⟨bs, h1, h2, h3⟩
+
+theorem readSpec_readBinary [DecidableEq α] {q : Q α} (h : AllF q.items) (n : Int) :
+    ReadSpec q (specStep q (.readBinary n)) (fun bs => bs.length = n.toNat) := readSpec_next h n
+
+theorem readSpec_readByte [DecidableEq α] {q : Q α} (h : AllF q.items) :
+    ReadSpec q (specStep q .readByte) (fun bs => bs.length = 1) := by
+  simp only [specStep]
+  split
+  · exact Or.inl rfl
+  · rcases takeRead_took h 1 with ⟨h1, _⟩ | ⟨bs, h1, h2, h3, _⟩
+    · exact Or.inl h1
+    · exact Or.inr ⟨bs, h1, h2, by simpa using h3⟩
+
+theorem readSpec_until [DecidableEq α] {q : Q α} (h : AllF q.items) (c : α) :
+    ReadSpec q (specStep q (.until c)) (fun _ => True) := by
+  simp only [specStep]
+  split
+  · exact Or.inl rfl
+  · rename_i i _
+    rcases takeRead_took h ((i : Int) + 1) with ⟨h1, _⟩ | ⟨bs, h1, h2, h3, _⟩
+    · exact Or.inl h1
+    · exact Or.inr ⟨bs, h1, h2, trivial⟩
+
+theorem bufOp_err [DecidableEq α] {r : ZCReader α} {op : Op α} (c : Bool) (hi : r.inC = true) (hc : Contract r.q op = true)
+    (hs : specStep r.q op = (r.q, .exact .err)) : r.bufOp op c = (r, .fail .buf) := by
+  cases r
+  simp_all [ZCReader.bufOp, ZCReader.call, callQ, ofExpect]
+
+theorem bufOp_consume [DecidableEq α] {r : ZCReader α} {op : Op α} {L : List α → Prop} (hr : RGood r)
+    (hc : Contract r.q op = true) (hs : ReadSpec r.q (specStep r.q op) L) :
+    RGood (r.bufOp op true).1 ∧ (r.bufOp op true).1.src = r.src ∧
+    (((r.bufOp op true).2 = .fail .buf ∧ (r.bufOp op true).1.delivered = r.delivered) ∨
+     ∃ bs, (r.bufOp op true).2 = .ok (.bytes bs) ∧ L bs ∧ Delivers r (r.bufOp op true).1 bs) := by
+  rcases hs with hs | ⟨bs, hs, hb, hL⟩
+  · rw [bufOp_err true hr.inC hc hs]
+    exact ⟨hr, rfl, Or.inl ⟨rfl, rfl⟩⟩
+  · have ht : Took r.q { r.q with items := r.q.items.drop bs.length } bs := ⟨rfl, hb⟩
+    have hq : r.bufOp op true = ({ r with q := { r.q with items := r.q.items.drop bs.length }, delivered := r.delivered ++ bs }, .ok (.bytes bs)) := by
+      have hi := hr.inC
+      obtain ⟨src, q, del, inC⟩ := r
+      simp only at hi hs hc
+      subst hi
+      simp [ZCReader.bufOp, ZCReader.call, callQ, ofExpect, hs, hc]
+    rw [hq]
+    refine ⟨⟨?_, ht.allF hr.allF, ht.flags hr.flags, hr.inC⟩, rfl, Or.inr ⟨bs, rfl, hL, hr.next_bytes hb, rfl⟩⟩
+    simp only [List.append_assoc, ← ht.flushedBytes hr.allF]
+    exact hr.stream
+
+
+theorem RGood.took {r : ZCReader α} (hr : RGood r) {q' : Q α} {bs : List α} (ht : Took r.q q' bs) :
+    RGood { r with q := q', delivered := r.delivered ++ bs } := by
+  refine ⟨?_, ht.allF hr.allF, ht.flags hr.flags, hr.inC⟩
+  simp only [List.append_assoc, ← ht.flushedBytes hr.allF]
+  exact hr.stream
+
+theorem bufOp_noconsume [DecidableEq α] {r : ZCReader α} {op : Op α} {q' : Q α} {res : Res α} (hi : r.inC = true)
+    (hc : Contract r.q op = true) (hs : specStep r.q op = (q', .exact res)) (hne : res ≠ .err) :
+    r.bufOp op false = ({ r with q := q' }, .ok res) := by
+  obtain ⟨src, q, del, inC⟩ := r
+  simp only at hi hs hc
+  subst hi
+  cases res <;> simp_all [ZCReader.bufOp, ZCReader.call, callQ, ofExpect]
+
+theorem bufOp_pure [DecidableEq α] {r : ZCReader α} {op : Op α} {res : Res α} (hi : r.inC = true)
+    (hc : Contract r.q op = true) (hs : specStep r.q op = (r.q, .exact res)) (hne : res ≠ .err) :
+    r.bufOp op false = (r, .ok res) := by
+  obtain ⟨src, q, del, inC⟩ := r
+  simp only at hi hs hc
+  subst hi
+  cases res <;> simp_all [ZCReader.bufOp, ZCReader.call, callQ, ofExpect]
+
+theorem waitRead_out [DecidableEq α] [Inhabited α] {r : ZCReader α} (hr : RGood r) (b : Nat) (n : Int)
+    {r1 : ZCReader α} {res : Option AErr} (hw : r.waitRead b (fuelOf r) n = (r1, res)) :
+    RGood r1 ∧ r1.delivered = r.delivered ∧ r1.src.stream = r.src.stream ∧ r.src.pos ≤ r1.src.pos ∧
+      (res = none → (r1.q.len : Int) ≥ n) := by
+  have h := waitRead_spec b n (fuelOf r) r hr (Nat.le_refl _)
+  rw [hw] at h
+  obtain ⟨g, hd, hs, hcase⟩ := h
+  refine ⟨g, hd, hs, ?_, ?_⟩
+  · rcases hcase with ⟨_, h⟩ | ⟨_, pre, last, _, _, _, _, _, hpos⟩
+    · cases h; exact Nat.le_refl _
+    · simp only at hpos; omega
+  · have := waitRead_enough b n (fuelOf r) r (Nat.le_refl _)
+    rw [hw] at this
+    intro hn; subst hn
+    simpa using this
+
+/-- common post-condition of every reader call -/
+def StepOK (r : ZCReader α) (out : ZCReader α × ARes α) : Prop :=
+  RGood out.1 ∧ out.1.src.stream = r.src.stream ∧ r.src.pos ≤ out.1.src.pos ∧
+  (∀ e, out.2 = .fail e → out.1.delivered = r.delivered)
+
+/-- a call that first waits for `n` bytes and then runs the consuming buffer call `op` -/
+theorem wait_consume [DecidableEq α] [Inhabited α] {r : ZCReader α} (hr : RGood r) (b : Nat) (n : Int) (op : Op α)
+    (L : List α → Prop) (hc : ∀ q : Q α, AllF q.items → QFlags q → Contract q op = true)
+    (hs : ∀ q : Q α, AllF q.items → ReadSpec q (specStep q op) L) :
+    let out := (match r.waitRead b (fuelOf r) n with
+      | (r1, some e) => (r1, ARes.fail e)
+      | (r1, none) => r1.bufOp op true)
+    StepOK r out ∧ ∀ res, out.2 = .ok res → ∃ bs, res = .bytes bs ∧ L bs ∧ Delivers r out.1 bs := by
+  cases hw : r.waitRead b (fuelOf r) n with
+  | mk r1 res =>
+    obtain ⟨g, hd, hst, hpos, _⟩ := waitRead_out hr b n hw
+    cases res with
+    | some e =>
+      simp only
+      exact ⟨⟨g, hst, hpos, fun _ _ => hd⟩, fun _ h => by simp at h⟩
+    | none =>
+      simp only
+      obtain ⟨g2, hsrc, hcase⟩ := bufOp_consume g (hc _ g.allF g.flags) (hs _ g.allF)
+      refine ⟨⟨g2, by rw [hsrc, hst], by rw [hsrc]; exact hpos, ?_⟩, ?_⟩
+      · intro e he
+        rcases hcase with ⟨_, h⟩ | ⟨bs, h, _⟩
+        · rw [h, hd]
+        · rw [h] at he; cases he
+      · intro res hres
+        rcases hcase with ⟨h, _⟩ | ⟨bs, h, hL, hdel⟩
+        · rw [h] at hres; cases hres
+        · rw [h] at hres; cases hres
+          refine ⟨bs, rfl, hL, ?_⟩
+          unfold Delivers at hdel ⊢
+          rw [← hst, ← hd]; exact hdel
+
+
+section steps
+variable [DecidableEq α] [Inhabited α] {r : ZCReader α} (hr : RGood r) (b : Nat)
+include hr
+
+theorem step_next (n : Int) :
+    StepOK r (r.step b (.next n)) ∧ ∀ res, (r.step b (.next n)).2 = .ok res →
+      ∃ bs, res = .bytes bs ∧ bs.length = n.toNat ∧ Delivers r (r.step b (.next n)).1 bs :=
+  wait_consume hr b n (.next n) _ (fun _ h f => (contract_read h f).1 n) (fun _ h => readSpec_next h n)
+
+theorem step_readBinary (n : Int) :
+    StepOK r (r.step b (.readBinary n)) ∧ ∀ res, (r.step b (.readBinary n)).2 = .ok res →
+      ∃ bs, res = .bytes bs ∧ bs.length = n.toNat ∧ Delivers r (r.step b (.readBinary n)).1 bs :=
+  wait_consume hr b n (.readBinary n) _ (fun _ h f => (contract_read h f).2.2.2.1 n) (fun _ h => readSpec_readBinary h n)
+
+theorem step_readByte :
+    StepOK r (r.step b .readByte) ∧ ∀ res, (r.step b .readByte).2 = .ok res →
+      ∃ bs, res = .bytes bs ∧ bs.length = 1 ∧ Delivers r (r.step b .readByte).1 bs :=
+  wait_consume hr b 1 .readByte _ (fun _ h f => (contract_read h f).2.2.2.2.1) (fun _ h => readSpec_readByte h)
+
+theorem step_until (c : α) :
+    StepOK r (r.step b (.until c)) ∧ ∀ res, (r.step b (.until c)).2 = .ok res →
+      ∃ bs, res = .bytes bs ∧ Delivers r (r.step b (.until c)).1 bs := by
+  show StepOK r (r.bufOp (.until c) true) ∧ ∀ res, (r.bufOp (.until c) true).2 = .ok res →
+      ∃ bs, res = .bytes bs ∧ Delivers r (r.bufOp (.until c) true).1 bs
+  obtain ⟨g2, hsrc, hcase⟩ := bufOp_consume hr ((contract_read hr.allF hr.flags).2.2.2.2.2.1 c) (readSpec_until hr.allF c)
+  refine ⟨⟨g2, by rw [hsrc], by rw [hsrc]; exact Nat.le_refl _, ?_⟩, ?_⟩
+  · intro e he
+    rcases hcase with ⟨_, h⟩ | ⟨bs, h, _⟩
+    · exact h
+    · rw [h] at he; cases he
+  · intro res hres
+    rcases hcase with ⟨h, _⟩ | ⟨bs, h, _, hdel⟩
+    · rw [h] at hres; cases hres
+    · rw [h] at hres; cases hres
+      exact ⟨bs, rfl, hdel⟩
+
+theorem step_release : r.step b .release = (r, .ok .unit) :=
+  bufOp_pure hr.inC (contract_read hr.allF hr.flags).2.2.2.2.2.2.1 rfl (by simp)
+
+theorem step_len : r.step b .len = (r, .ok (.num r.q.len)) :=
+  bufOp_pure hr.inC (contract_read hr.allF hr.flags).2.2.2.2.2.2.2 rfl (by simp)
+
+theorem step_peek (n : Int) :
+    StepOK r (r.step b (.peek n)) ∧ (r.step b (.peek n)).1.delivered = r.delivered ∧
+    ∀ res, (r.step b (.peek n)).2 = .ok res →
+      ∃ bs, res = .bytes bs ∧ bs.length = n.toNat ∧ bs = seg r.src.stream r.delivered.length bs.length ∧
+        bs = (r.step b (.peek n)).1.q.flushedBytes.take bs.length := by
+  have hstep : r.step b (.peek n) = (match r.waitRead b (fuelOf r) n with
+      | (r1, some e) => (r1, ARes.fail e)
+      | (r1, none) => r1.bufOp (.peek n) false) := rfl
+  rw [hstep]
+  cases hw : r.waitRead b (fuelOf r) n with
+  | mk r1 res =>
+    obtain ⟨g, hd, hst, hpos, _⟩ := waitRead_out hr b n hw
+    have hc := (contract_read g.allF g.flags).2.1 n
+    cases res with
+    | some e =>
+      simp only
+      exact ⟨⟨g, hst, hpos, fun _ _ => hd⟩, hd, fun _ h => by simp at h⟩
+    | none =>
+      simp only
+      rcases takeRead_peek g.allF n with ⟨h1, _⟩ | ⟨bs, h1, h2, h3⟩
+      · rw [bufOp_err false g.inC hc h1]
+        exact ⟨⟨g, hst, hpos, fun _ _ => hd⟩, hd, fun _ h => by simp at h⟩
+      · rw [bufOp_pure g.inC hc h1 (by simp)]
+        refine ⟨⟨g, hst, hpos, fun _ _ => hd⟩, hd, ?_⟩
+        intro res hres
+        cases hres
+        refine ⟨bs, rfl, h3, ?_, h2⟩
+        rw [← hst, ← hd]; exact g.next_bytes h2
+
+theorem step_skip (n : Int) :
+    StepOK r (r.step b (.skip n)) ∧ ∀ res, (r.step b (.skip n)).2 = .ok res →
+      res = .unit ∧ ∃ bs, bs.length = n.toNat ∧ Delivers r (r.step b (.skip n)).1 bs := by
+  have hstep : r.step b (.skip n) = (match r.waitRead b (fuelOf r) n with
+      | (r1, some e) => (r1, ARes.fail e)
+      | (r1, none) =>
+        let skipped := if n ≤ 0 ∨ r1.q.len < n.toNat then [] else r1.q.firstBytes n.toNat
+        let (r', res) := r1.bufOp (.skip n) false
+        ({ r' with delivered := r'.delivered ++ skipped }, res)) := rfl
+  rw [hstep]
+  cases hw : r.waitRead b (fuelOf r) n with
+  | mk r1 res =>
+    obtain ⟨g, hd, hst, hpos, _⟩ := waitRead_out hr b n hw
+    have hc := (contract_read g.allF g.flags).2.2.1 n
+    cases res with
+    | some e =>
+      simp only
+      exact ⟨⟨g, hst, hpos, fun _ _ => hd⟩, fun _ h => by simp at h⟩
+    | none =>
+      simp only
+      rcases takeRead_took g.allF n with ⟨h1, h2, h3⟩ | ⟨bs, h1, h2, h3, h4⟩
+      · have hs : specStep r1.q (.skip n) = (r1.q, .exact .err) := by simp [specStep, h1]
+        rw [bufOp_err false g.inC hc hs]
+        have : (n ≤ 0 ∨ r1.q.len < n.toNat) := Or.inr h3
+        simp only [this, if_true, List.append_nil]
+        exact ⟨⟨g, hst, hpos, fun _ _ => hd⟩, fun _ h => by simp at h⟩
+      · have hs : specStep r1.q (.skip n) = ({ r1.q with items := r1.q.items.drop bs.length }, .exact .unit) := by
+          simp [specStep, h1]
+        rw [bufOp_noconsume g.inC hc hs (by simp)]
+        have hle : ¬ (n ≤ 0 ∨ r1.q.len < n.toNat) ∨ bs = [] := by
+          by_cases hn : n ≤ 0
+          · right; apply List.eq_nil_of_length_eq_zero; omega
+          · left
+            have := congrArg List.length h2
+            rw [List.length_take, ← Q.len_eq_flushedBytes] at this
+            omega
+        have hsk : (if n ≤ 0 ∨ r1.q.len < n.toNat then [] else r1.q.firstBytes n.toNat) = bs := by
+          rcases hle with h | h
+          · rw [if_neg h, h4]
+          · split
+            · exact h.symm
+            · exact h4.symm
+        simp only [hsk]
+        have ht : Took r1.q { r1.q with items := r1.q.items.drop bs.length } bs := ⟨rfl, h2⟩
+        refine ⟨⟨g.took ht, hst, hpos, fun _ h => by simp at h⟩, ?_⟩
+        intro res hres
+        cases hres
+        refine ⟨rfl, bs, h3, ?_, ?_⟩
+        · rw [← hst, ← hd]; exact g.next_bytes h2
+        · simp [hd]
+
+end steps
+
+
+theorem StepOK.same {r : ZCReader α} (hr : RGood r) (res : ARes α) : StepOK r (r, res) :=
+  ⟨hr, rfl, Nat.le_refl _, fun _ _ => rfl⟩
+
+theorem step_ok [DecidableEq α] [Inhabited α] {r : ZCReader α} (hr : RGood r) (b : Nat) (op : ROp α) :
+    StepOK r (r.step b op) := by
+  cases op with
+  | next n => exact (step_next hr b n).1
+  | peek n => exact (step_peek hr b n).1
+  | skip n => exact (step_skip hr b n).1
+  | readBinary n => exact (step_readBinary hr b n).1
+  | readByte => exact (step_readByte hr b).1
+  | «until» c => exact (step_until hr b c).1
+  | release => rw [step_release hr b]; exact StepOK.same hr _
+  | len => rw [step_len hr b]; exact StepOK.same hr _
+
+theorem RGood.init (stream : Nat → α) (script : List (Int × IOErr)) :
+    RGood ({ src := { stream := stream, script := script } } : ZCReader α) :=
+  ⟨by simp [Q.flushedBytes, Src.pulled], by intro x hx; simp at hx, ⟨rfl, rfl, rfl, rfl⟩, rfl⟩
+
+theorem run_ok [DecidableEq α] [Inhabited α] (b : Nat) (ops : List (ROp α)) :
+    ∀ r : ZCReader α, RGood r →
+      RGood (r.run b ops) ∧ (r.run b ops).src.stream = r.src.stream ∧ r.src.pos ≤ (r.run b ops).src.pos := by
+  induction ops with
+  | nil => intro r hr; exact ⟨hr, rfl, Nat.le_refl _⟩
+  | cons op ops ih =>
+    intro r hr
+    obtain ⟨g, hst, hpos, _⟩ := step_ok hr b op
+    obtain ⟨g2, hst2, hpos2⟩ := ih _ g
+    exact ⟨g2, hst2.trans hst, Nat.le_trans hpos hpos2⟩
+
 end Netpoll.Adapter
